@@ -94,5 +94,6 @@ func C03(c *core.Ctx) {
 			return keep
 		})
 	}
+	ruleMultiSel(c, ruleSet("A-MAP", "A-REJ", "A-NOEXTRA", "A-REQ"), 2, "allOf branch in two files", "differing only in the target of a nested reference")
 	c.Floor("families", c.Counts["members"], 150, "family members")
 }
